@@ -632,7 +632,35 @@ func (in *Interp) lookup(instr *ssa.Lookup, x, idx Value) Value {
 func (in *Interp) rangeIter(x Value) Value {
 	switch x := x.(type) {
 	case *Map:
-		return &mapIter{m: x}
+		it := &mapIter{m: x}
+		if in.mapOrders && x != nil {
+			var live []int
+			for i := range x.keys {
+				if x.live[i] {
+					live = append(live, i)
+				}
+			}
+			switch len(live) {
+			case 0, 1:
+			case 2:
+				if in.choose("mo", 2) == 1 {
+					live[0], live[1] = live[1], live[0]
+				}
+				it.order = live
+			case 3:
+				perms := [][3]int{{0, 1, 2}, {0, 2, 1}, {1, 0, 2}, {1, 2, 0}, {2, 0, 1}, {2, 1, 0}}
+				p := perms[in.choose("mo", 6)]
+				it.order = []int{live[p[0]], live[p[1]], live[p[2]]}
+			default:
+				if in.choose("mo", 2) == 1 {
+					for i, j := 0, len(live)-1; i < j; i, j = i+1, j-1 {
+						live[i], live[j] = live[j], live[i]
+					}
+				}
+				it.order = live
+			}
+		}
+		return it
 	case Str:
 		return &strIter{s: x}
 	}
@@ -644,7 +672,15 @@ func (in *Interp) iterNext(it Value, instr *ssa.Next) Value {
 	switch it := it.(type) {
 	case *mapIter:
 		tt := instr.Type().(*types.Tuple)
-		if it.m != nil {
+		if it.m != nil && it.order != nil {
+			for it.pos < len(it.order) {
+				i := it.order[it.pos]
+				it.pos++
+				if it.m.live[i] {
+					return Tuple{in.ts.Bool(true), copyVal(it.m.keys[i]), copyVal(it.m.vals[i])}
+				}
+			}
+		} else if it.m != nil {
 			for it.pos < len(it.m.keys) {
 				i := it.pos
 				it.pos++
